@@ -68,6 +68,7 @@ package delegation
 //@
 //@ func tokenFromModel
 //@   requires m.Pol != nil
+//@   ensures [C06] issuer: result1 == nil ==> result0.issuer == parsedDID(m.Iss)
 //@   ensures [C10] wellformed: result1 == nil ==> result0 != nil && wfDlg(result0)
 //@   ensures [C10] command: result1 == nil ==> validCmd(string(result0.command)) && string(result0.command) == m.Cmd
 //@   ensures [C10] times: result1 == nil ==> inSafeRange(m.Nbf) && inSafeRange(m.Exp)
@@ -83,3 +84,37 @@ package delegation
 //@   requires forall i int :: 0 <= i && i < len(opts) ==> opts[i] != nil
 //@   assigns opts
 //@   ensures [C10] wellformed: result1 == nil ==> result0 != nil && wfDlg(result0)
+//@
+//@ // ---- C06: decoding verifies the envelope ------------------------------------------------------------
+//@ // assumption on bindnode (trusted): a model unwrapped from a conforming payload node has its required
+//@ // fields set and its Iss field is the payload's "iss" entry
+//@ pure func bindnodeModelsWF() bool =
+//@     forall p *tokenPayloadModel :: p != nil ==> p.Pol != nil && p.Iss == nodeStr(lookupStr(unwrapSrc(box(p)), "iss"))
+//@
+//@ func (*tokenPayloadModel).Prototype
+//@   trusted
+//@   ensures result != nil
+//@
+//@ func FromIPLD
+//@   requires node != nil && bindnodeModelsWF()
+//@   requires forall x any :: unwrapped(x) && x is *tokenPayloadModel ==> x.(*tokenPayloadModel) != nil      // bindnode never boxes a nil model pointer
+//@   use node_sizes, node_map_children
+//@   ensures [C06,C10] envelope: result1 == nil ==> envelopeVerified(node, Tag)
+//@   ensures [C06] issuer: result1 == nil ==> result0 != nil && result0.issuer == parsedDID(nodeStr(lookupStr(tokenPayloadOf(sigPayload(node)), "iss")))
+//@   ensures [C10] wellformed: result1 == nil ==> wfDlg(result0) && validCmd(string(result0.command))
+//@
+//@ // ---- decoders from bytes: decode, then the verified FromIPLD -------------------------------------------
+//@ func Decode
+//@   requires decFn != nil
+//@   requires bindnodeModelsWF() && (forall x any :: unwrapped(x) && x is *tokenPayloadModel ==> x.(*tokenPayloadModel) != nil)
+//@   use node_sizes, node_map_children
+//@   ensures [C06,C10] envelope: result1 == nil ==> envelopeVerified(decodeWith(decFn, bytes(b)), Tag)
+//@ func FromDagCbor
+//@   requires bindnodeModelsWF() && (forall x any :: unwrapped(x) && x is *tokenPayloadModel ==> x.(*tokenPayloadModel) != nil)
+//@   use node_sizes, node_map_children
+//@   ensures [C06,C10] envelope: result1 == nil ==> envelopeVerified(decodeWith(dagcbor.Decode, bytes(data)), Tag)
+//@ func FromSealed
+//@   requires bindnodeModelsWF() && (forall x any :: unwrapped(x) && x is *tokenPayloadModel ==> x.(*tokenPayloadModel) != nil)
+//@   use node_sizes, node_map_children
+//@   ensures [C06,C10] envelope: result2 == nil ==> envelopeVerified(decodeWith(dagcbor.Decode, bytes(data)), Tag)
+//@   ensures [C08] cid: result2 == nil ==> result1 == ucanCid(bytes(data))
